@@ -80,7 +80,10 @@ class Deep:
         self.task_handler.flush()
         self.poll.shutdown()
         for plugin in self.config.plugins:
-            plugin.shutdown()
+            try:
+                plugin.shutdown()
+            except Exception:
+                deep.logging.exception("Failed to shutdown plugin %s", plugin.name)
         deep.logging.info("Deep is shutdown.")
         self.started = False
 
